@@ -234,6 +234,8 @@ def r5(tree, rep, tier):
              "closed-before-rc-stopped": "closed delivered before the server connection was shut down",
              "verdict": "wrong close() verdict", "mood": "wrong mood sent with close",
              "ignored": "a close request / server error does not put the wormhole into closing",
+             "tx-protocol": "a request is sent in a form the server rejects on this connection (the mailbox is never confirmed closed, "
+                            "closed never fires)",
              "reconnect-abandoned": "the client gives up reconnecting after an established session lost its connection: a pending "
                                     "close() can never release the claim / close the mailbox, and reports ServerConnectionError"}
     for envname, s in sums.items():
@@ -287,6 +289,8 @@ def r8(prog, rep):
 
 
 def run(tree, rep, tier):
+    from .. import sharedstate
+    sharedstate.check(tree, rep, "C08.R0")
     prog = Program(tree)
     r_tables(prog, rep)
     r8(prog, rep)
